@@ -123,6 +123,22 @@ theorem stepP_filter (f : Nat) (st : St α) (i : Nat) (p : α → Bool) :
   simp only [stepP, step, ALV.Gen.C03.progs, inPlace, wrapP_filter]
   rfl
 
+theorem hubInitP_gen (st : St α) (s : Src α) (n : Nat) :
+    hubInitP ALV.Gen.C03.hubInit st s n =
+      match mkSrc st s with
+      | .error e => some (st, .err e)
+      | .ok (st', it) =>
+        some (⟨(teeOf st'.heap it).1, st'.pool ++ [.hub (List.replicate n (teeOf st'.heap it).2)]⟩, .new st'.pool.length) := by
+  simp only [hubInitP, ALV.Gen.C03.hubInit, execHI]
+  cases mkSrc st s with
+  | error e => rfl
+  | ok r => rfl
+
+theorem stepP_thub (f : Nat) (st : St α) (s : Src α) (n : Nat) :
+    stepP ALV.Gen.C03.progs f st (.thub s n) = step f st (.thub s n) := by
+  simp only [stepP, thubP, ALV.Gen.C03.progs, ALV.Gen.C03.thub, hubInitP_gen]
+  cases s <;> simp only [step] <;> (try rfl) <;> (split <;> rfl)
+
 /-- the step function of the history model IS the interpretation of the regenerated programs -/
 theorem stepP_gen (f : Nat) (st : St α) (op : Op α) : stepP ALV.Gen.C03.progs f st op = step f st op := by
   cases op with
@@ -137,7 +153,7 @@ theorem stepP_gen (f : Nat) (st : St α) (op : Op α) : stepP ALV.Gen.C03.progs 
   | new s => rfl
   | next i => rfl
   | drain i => rfl
-  | thub s n => rfl
+  | thub s n => exact stepP_thub f st s n
   | tee i n => rfl
 
 end ALV.C03.Src
